@@ -384,3 +384,61 @@ void h_f_inner_region(void) { const V *x, *y; V *sum; size_t n; int nt, tid; ptr
     not_decided=['initialisation of the partial sums and std::accumulate over them (serial prologue / epilogue of parallel())'],
 )
 UNITS += [inner_product_par]
+
+# ---------------------------------------------------------------- crs::row_iterator (justifies rule R-iter)
+ROWIT_T = HDR + r'''
+typedef struct row_it { const ptrdiff_t *m_col; const ptrdiff_t *m_end; const V *m_val; } row_it;
+/* crs<V>::row_begin(row): (col + ptr[row], col + ptr[row+1], val + ptr[row]) */
+row_it f_row_begin(const ptrdiff_t *ptr, const ptrdiff_t *col, const V *val, size_t nrows, ptrdiff_t nnz, size_t row)
+__CPROVER_requires(nrows <= NMAX && 0 <= nnz && nnz <= (ptrdiff_t)(NMAX / 16) && row < nrows)
+__CPROVER_requires(__CPROVER_is_fresh(ptr, (nrows + 1) * sizeof(ptrdiff_t)) && __CPROVER_is_fresh(col, nnz * sizeof(ptrdiff_t)) && __CPROVER_is_fresh(val, nnz * sizeof(V)))
+__CPROVER_requires(0 <= ptr[row] && ptr[row] <= ptr[row + 1] && ptr[row + 1] <= nnz)
+__CPROVER_assigns()
+__CPROVER_ensures(__CPROVER_return_value.m_col == col + ptr[row] && __CPROVER_return_value.m_end == col + ptr[row + 1] && __CPROVER_return_value.m_val == val + ptr[row])
+{
+#define row_iterator(a, b, c) ((row_it){a, b, c})
+/*@CUT:row_begin@*/
+}
+/* operator bool: m_col < m_end */
+_Bool f_it_valid(const row_it *self, const ptrdiff_t *base, size_t n, size_t a, size_t b)
+__CPROVER_requires(__CPROVER_is_fresh(self, sizeof(*self)) && n <= NMAX / 16 && __CPROVER_is_fresh(base, n * sizeof(ptrdiff_t)))
+/* both cursors point into (or one past) the column array of the matrix */
+__CPROVER_requires(a <= n && b <= n && self->m_col == base + a && self->m_end == base + b)
+__CPROVER_assigns()
+__CPROVER_ensures(__CPROVER_return_value == (self->m_col < self->m_end))
+{
+/*@CUT:valid@*/
+}
+/* operator++: both cursors advance by one */
+void f_it_next(row_it *self)
+__CPROVER_requires(__CPROVER_is_fresh(self, sizeof(*self)))
+__CPROVER_assigns(self->m_col, self->m_val)
+__CPROVER_ensures(self->m_col == __CPROVER_old(self->m_col) + 1 && self->m_val == __CPROVER_old(self->m_val) + 1 && self->m_end == __CPROVER_old(self->m_end))
+{
+/*@CUT:next@*/
+}
+void h_f_row_begin(void) { const ptrdiff_t *p, *c; const V *v; size_t n, r; ptrdiff_t z; f_row_begin(p, c, v, n, z, r); }
+void h_f_it_valid(void) { row_it *it; const ptrdiff_t *base; size_t n, a, b; f_it_valid(it, base, n, a, b); }
+void h_f_it_next(void) { row_it *it; f_it_next(it); }
+'''
+MEMBER = [Rule(r'(?<![\w.>])(m_col|m_end|m_val)\b', r'self->\1', None, why='R-member')]
+
+
+def _rowit(name, enforce, what):
+    return Unit(
+        name=name, props=['C07', 'C08', 'C17', 'C10'],
+        functions=['backend::crs<V,C,P>::' + what],
+        desc='crs::row_iterator is the index walk over ptr[row]..ptr[row+1] (justifies rule R-iter used by the mat-vec / diagonal / scaling units)',
+        cuts={'row_begin': Cut(SRC, r'row_iterator row_begin\(size_t row\) const\s*(?=\{)',
+                               rules=[Rule(r'\bptr_type\b', 'ptrdiff_t', None, why='instantiation')]),
+              'valid': Cut(SRC, r'operator bool\(\) const\s*(?=\{)', nth=0, rules=MEMBER),
+              'next': Cut(SRC, r'row_iterator& operator\+\+\(\)\s*(?=\{)', nth=0,
+                          rules=MEMBER + [Rule(r'return \*this;', 'return;', 1, why='reference return dropped')])},
+        template=ROWIT_T, enforce=enforce, mode='loopfree', timeout=120, cover=False,
+        assumptions=['A-inst: index types ptrdiff_t'],
+    )
+
+
+UNITS += [_rowit('crs_row_begin', 'f_row_begin', 'row_begin(row)'),
+          _rowit('crs_row_iterator_valid', 'f_it_valid', 'row_iterator::operator bool'),
+          _rowit('crs_row_iterator_next', 'f_it_next', 'row_iterator::operator++')]
